@@ -9,6 +9,7 @@ import (
 	"fmt"
 	"math/rand/v2"
 	"os"
+	"regexp"
 	"sort"
 	"strconv"
 	"strings"
@@ -56,6 +57,10 @@ type Cfg struct {
 	Down        []time.Duration `json:"down"`  // how long file.d stays down after each kill
 	Power       bool            `json:"power"` // kills are power losses for file.d's own writes
 	Bound       time.Duration   `json:"bound"`
+	// CRI: the lines are written in the CRI log format ("<time> stdout|stderr F <payload>"), the pipeline decodes them
+	// with the cri decoder and has its antispam enabled (with a threshold nothing reaches): Pipeline.In then applies
+	// its own early "already committed" test to the per-stream offsets the file worker hands over
+	CRI bool `json:"cri,omitempty"`
 }
 
 func (c *Cfg) SimCfg() *simrt.Config { return &c.Sim }
@@ -94,7 +99,12 @@ func (h *H) Gen(rng *rand.Rand, tier, prop string) core.Cfg {
 	c.SingleProc = core.Chance(rng, 0.4)
 	c.Pool = core.Pick(rng, "std", "low_memory")
 	streams := []string{"a", "b", "c"}[:core.Between(rng, 1, 3)]
+	c.CRI = core.Chance(rng, 0.2)
+	if c.CRI {
+		streams = []string{"stdout", "stderr"}[:core.Between(rng, 1, 2)]
+	}
 	if multi {
+		c.CRI = false
 		streams = []string{"a", "b", "c"}
 		c.Sync = core.Chance(rng, 0.6)
 		c.AsyncIvl = core.DurBetween(rng, 5*time.Millisecond, 100*time.Millisecond)
@@ -209,6 +219,19 @@ func (h *H) Gen(rng *rand.Rand, tier, prop string) core.Cfg {
 		c.Down = append(c.Down, core.Pick(rng, time.Millisecond, 100*time.Millisecond, 2*time.Second))
 	}
 	sort.Slice(c.Kills, func(i, j int) bool { return c.Kills[i] < c.Kills[j] })
+	if nk > 0 && !multi && core.Chance(rng, 0.3) {
+		// a truncation long after the last restart (no kill follows it): the incarnation that was started with an
+		// offsets file must start the file over and deliver what is written afterwards
+		f := rng.IntN(c.Files)
+		c.Ops = append(c.Ops, WOp{Kind: "truncate", File: f, Pause: 5 * time.Second})
+		total += 5*time.Second + 3*c.MaintIvl + 2*time.Second
+		for i, k := 0, core.Between(rng, 1, 4); i < k; i++ {
+			id++
+			op := WOp{Kind: "line", File: f, ID: id, Stream: streams[rng.IntN(len(streams))], Pad: core.Between(rng, 0, 30), Pause: core.DurBetween(rng, time.Millisecond, 50*time.Millisecond)}
+			total += op.Pause
+			c.Ops = append(c.Ops, op)
+		}
+	}
 	c.Power = core.Chance(rng, 0.3)
 	c.Sim.QuietAt = total + 10*time.Second
 	c.Bound = 90 * time.Second
@@ -351,7 +374,26 @@ const logDir = "/data/logs"
 func logPath(f int) string { return fmt.Sprintf("%s/app%d.log", logDir, f) }
 
 func (r *run) lineText(l *lineInfo, pad int) string {
+	if r.cfg.CRI {
+		return fmt.Sprintf(`2024-01-01T00:00:00.%09dZ %s F {"id":%d,"pad":%q}`, l.id, l.stream, l.id, strings.Repeat("x", pad)) + "\n"
+	}
 	return fmt.Sprintf(`{"id":%d,"stream":%q,"pad":%q}`, l.id, l.stream, strings.Repeat("x", pad)) + "\n"
+}
+
+var idInLog = regexp.MustCompile(`"id":(\d+)`)
+
+// idOf finds the harness's line id in an event (in CRI mode it sits inside the "log" string).
+func idOf(e *pipeline.Event) (int, bool) {
+	if n := e.Root.Dig("id"); n != nil {
+		return n.AsInt(), true
+	}
+	if n := e.Root.Dig("log"); n != nil {
+		if m := idInLog.FindStringSubmatch(n.AsString()); m != nil {
+			id, _ := strconv.Atoi(m[1])
+			return id, true
+		}
+	}
+	return 0, false
 }
 
 // writer performs the external history on the disk.
@@ -467,8 +509,8 @@ func (r *run) OnOut(string, *pipeline.Event) {}
 func (r *run) OnSendStart(sink string, batchNo, attempt int, iter, all []*pipeline.Event) {
 	ids := make([]int, 0, len(iter))
 	for _, e := range iter {
-		if n := e.Root.Dig("id"); n != nil {
-			ids = append(ids, n.AsInt())
+		if id, ok := idOf(e); ok {
+			ids = append(ids, id)
 		}
 	}
 	r.pendingSend[sendKey{r.incarnation, batchNo}] = ids
@@ -490,8 +532,8 @@ func (r *run) OnSendRet(sink string, batchNo, attempt int, failed bool) {
 func (r *run) OnGiveUp(sink string, batchNo int, events []*pipeline.Event) {
 	// retries exhausted without a dead queue: the documented skip; those lines are not required any more
 	for _, e := range events {
-		if n := e.Root.Dig("id"); n != nil {
-			if l := r.lines[n.AsInt()]; l != nil {
+		if id, ok := idOf(e); ok {
+			if l := r.lines[id]; l != nil {
 				l.delivered++
 			}
 		}
@@ -526,8 +568,8 @@ func (w *inWrap) PassEvent(e *pipeline.Event) bool {
 	}
 	if ok {
 		w.r.passed[k] = true
-		if n := e.Root.Dig("id"); n != nil {
-			if l := w.r.lines[n.AsInt()]; l != nil {
+		if id, ok := idOf(e); ok {
+			if l := w.r.lines[id]; l != nil {
 				l.read++
 			}
 		}
@@ -542,8 +584,8 @@ func (w *inWrap) Commit(e *pipeline.Event) {
 		fmt.Printf("[%v step %d] Commit src=%d off=%d seq=%d stream=%s\n", simrt.SimNow(), simrt.Steps(), e.SourceID, e.Offset, e.SeqID, pipeline.VerifEventStream(e))
 	}
 	w.r.commitsSeen++
-	if n := e.Root.Dig("id"); n != nil {
-		if l := w.r.lines[n.AsInt()]; l != nil {
+	if id, ok := idOf(e); ok {
+		if l := w.r.lines[id]; l != nil {
 			l.committed++
 		}
 	}
@@ -562,10 +604,14 @@ func (r *run) startIncarnation() int {
 	r.fs.Alias(mnt, "/data")
 	cfg := r.cfg
 	return simrt.GoGroup(fmt.Sprintf("filed%d", inc), func() {
+		dec, antispamThr := "json", -1
+		if cfg.CRI {
+			dec, antispamThr = "cri", 1_000_000
+		}
 		settings := &pipeline.Settings{
 			Capacity: cfg.Capacity, MaintenanceInterval: 5 * time.Second, EventTimeout: time.Second,
-			Antispam:     pipeline.AntispamSettings{Threshold: -1, MaintenanceInterval: 5 * time.Second},
-			AvgEventSize: 128, StreamField: "stream", Decoder: "json", Pool: pipeline.PoolType(cfg.Pool),
+			Antispam:     pipeline.AntispamSettings{Threshold: antispamThr, MaintenanceInterval: 5 * time.Second},
+			AvgEventSize: 128, StreamField: "stream", Decoder: dec, Pool: pipeline.PoolType(cfg.Pool),
 			Metric: &pipeline.MetricSettings{HoldDuration: time.Minute},
 		}
 		p := pipeline.New(name, settings, prometheus.NewRegistry(), h1pipe.QuietLogger())
